@@ -6,13 +6,14 @@
 package c02eng
 
 import (
-	"flag"
-	"math/rand"
 	"bytes"
 	"errors"
+	"flag"
 	"fmt"
 	"io"
+	"math/rand"
 	"net"
+	"os"
 	"strings"
 	"sync"
 	"sync/atomic"
@@ -24,21 +25,23 @@ import (
 	"github.com/henrylee2cn/erpc/v6/socket"
 )
 
-
 // Family is one wire protocol as seen by the harness.
 type Family struct {
 	Name      string
-	Proto     erpc.ProtoFunc                       // nil = default raw protocol
-	NewResult func() interface{}                    // the caller's result value
-	ResultOK  func(res interface{}) bool            // did the genuine reply arrive in it?
-	Reply     func(seq int32, cls string) []byte    // bytes of a reply of a class (label)
-	Classes   [][2]string                           // (label, model class: ok|remote|undec|undec0|hook|panic|wrongseq|bad)
-	Bad       [][]byte                              // malformed byte strings (read error at that point)
+	Proto     erpc.ProtoFunc                     // nil = default raw protocol
+	NewResult func() interface{}                 // the caller's result value
+	ResultOK  func(res interface{}) bool         // did the genuine reply arrive in it?
+	Reply     func(seq int32, cls string) []byte // bytes of a reply of a class (label)
+	Classes   [][2]string                        // (label, model class: ok|remote|undec|undec0|hook|panic|wrongseq|bad)
+	Bad       [][]byte                           // malformed byte strings (read error at that point)
 	Arg       interface{}
 	// OnlyFresh: classes whose effect depends on the call being bound (an undecodable status
 	// document with no body codec is a read error whether or not the frame finds its call);
 	// they are sent only for a call that cannot have completed yet, else the substitute is sent
 	OnlyFresh map[string]string
+	// Other: a well-formed frame whose message type is none of CALL/REPLY/PUSH (nil: the
+	// family has none)
+	Other func() []byte
 }
 
 var fam *Family
@@ -145,12 +148,42 @@ type world struct {
 	drainWG  sync.WaitGroup
 	touched  map[int]bool // calls that have been sent some reply
 	armed    map[string]bool
-	mustDone int          // call that the reply just sent must complete (-1 = none)
-	dirty    bool         // a loss, malformed bytes or a Close happened: later calls may complete by themselves
+	mustDone int           // call that the reply just sent must complete (-1 = none)
+	dirty    bool          // a loss, malformed bytes or a Close happened: later calls may complete by themselves
+	poolHold chan struct{} // non-nil: harness goroutines occupy every free slot of the goroutine pool
+	poolWG   sync.WaitGroup
+}
+
+// poolLimit: the goroutine pool of every case; far more than a case uses unless the harness fills it
+const poolLimit = 32
+
+func (w *world) poolFull() {
+	if w.poolHold != nil {
+		return
+	}
+	hold := make(chan struct{})
+	w.poolHold = hold
+	for i := 0; i < 4*poolLimit; i++ {
+		w.poolWG.Add(1)
+		if !erpc.Go(func() { defer w.poolWG.Done(); <-hold }) {
+			w.poolWG.Done()
+			return
+		}
+	}
+}
+
+func (w *world) poolFree() {
+	if w.poolHold == nil {
+		return
+	}
+	close(w.poolHold)
+	w.poolHold = nil
+	w.poolWG.Wait()
 }
 
 func newWorld() *world {
 	w := &world{closed: make(chan struct{}), touched: map[int]bool{}, armed: map[string]bool{}, mustDone: -1}
+	erpc.SetGopool(poolLimit, 0) // a fresh pool per case
 	w.P = erpc.NewPeer(erpc.PeerConfig{}, replyPlugin{})
 	var pf []erpc.ProtoFunc
 	if fam.Proto != nil {
@@ -170,6 +203,7 @@ func newWorld() *world {
 }
 
 func (w *world) destroy() {
+	w.poolFree()
 	w.g.Uninstall()
 	w.sc.Close()
 	w.cc.Conn.Close()
@@ -264,6 +298,21 @@ func (w *world) processed() int {
 	return w.g.Arrivals("read.got", w.sess) + w.g.Arrivals("disc.read", w.sess)
 }
 
+// countOnStack counts the goroutines that have sub on their stack (not merely in the line that
+// says which function created them).
+func countOnStack(d []string, sub string) int {
+	n := 0
+	for _, g := range d {
+		if i := strings.Index(g, "created by"); i >= 0 {
+			g = g[:i]
+		}
+		if strings.Contains(g, sub) {
+			n++
+		}
+	}
+	return n
+}
+
 func (w *world) settle() (string, bool) {
 	var s1 string
 	ok := WaitUntil(settleTimeout, func() bool {
@@ -278,6 +327,10 @@ func (w *world) settle() (string, bool) {
 		if w.closerClassIn(d) == "other" {
 			return false
 		}
+		// a Close() started by the library itself (unsupported message type) has returned or waits
+		if !w.closing && CountIn(d, "session).Close") != CountIn(d, "session).Close", "Group).Wait")+CountIn(d, "session).Close", "Mutex).Lock") {
+			return false
+		}
 		// callers: every AsyncCall has returned or is parked at write.done
 		notReturned := 0
 		for _, c := range w.calls {
@@ -289,7 +342,7 @@ func (w *world) settle() (string, bool) {
 			return false
 		}
 		// reply handlers: none running except those parked at reply.predone
-		if CountIn(d, "handlerCtx).handle") != w.g.Parked("reply.predone", w.sess) {
+		if countOnStack(d, "handlerCtx).handle") != w.g.Parked("reply.predone", w.sess) {
 			return false
 		}
 		s1 = w.sample(d)
@@ -358,7 +411,7 @@ func runCase(cfg *RunCfg, st *Stats, idx int, script []string) (string, string) 
 	var ins, outs []string
 	human := strings.Join(script, " ")
 	// every history ends with all gates open and the connection lost
-	script = append(append([]string{}, script...), "disarm:caller", "disarm:callerw", "disarm:reply", "lost")
+	script = append(append([]string{}, script...), "disarm:caller", "disarm:callerw", "disarm:reply", "pool:free", "lost")
 	var final string
 	for _, ev := range script {
 		f := strings.Split(ev, ":")
@@ -434,6 +487,20 @@ func runCase(cfg *RunCfg, st *Stats, idx int, script []string) (string, string) 
 				w.sent++
 			}
 			in = VL(VS("bad"))
+		case "other":
+			w.dirty = true
+			if !w.lost {
+				w.sc.Write(fam.Other())
+				w.sent++
+			}
+			in = VL(VS("other"))
+		case "pool":
+			if f[1] == "full" {
+				w.poolFull()
+			} else {
+				w.poolFree()
+			}
+			in = VL(VS("pool"), VS(f[1]))
 		case "lost", "lostpartial":
 			w.dirty = true
 			if !w.lost {
@@ -500,6 +567,13 @@ func runCase(cfg *RunCfg, st *Stats, idx int, script []string) (string, string) 
 			w.mustDone = -1
 		}
 		if !ok {
+			if os.Getenv("C02_DEBUG") != "" {
+				for _, g := range GoroutineDump() {
+					if strings.Contains(g, "henrylee2cn/erpc") {
+						fmt.Fprintln(os.Stderr, g)
+					}
+				}
+			}
 			st.Fail(idx, "quiescence", "no quiescent state within the watchdog after "+ev, human)
 			break // one watchdog per case
 		}
@@ -548,8 +622,26 @@ func genScript(cfg *RunCfg, st *Stats) []string {
 	n := 3 + r.Intn(9)
 	issued := 0
 	armC, armR := false, false
+	full := false
 	for e := 0; e < n; e++ {
 		k := r.Intn(100)
+		if x := r.Intn(100); x < 4 && fam.Other != nil {
+			// a frame of an unsupported type: the session closes itself from a goroutine of its own
+			s = append(s, "other")
+			st.Count("ev:unsupported-message-type")
+			continue
+		} else if x < 10 && !armR {
+			// (not while reply handlers are parked before done: with no slot the read loop itself
+			// would run into that gate)
+			full = !full
+			if full {
+				s = append(s, "pool:full")
+			} else {
+				s = append(s, "pool:free")
+			}
+			st.Count("ev:goroutine-pool-full/free")
+			continue
+		}
 		switch {
 		case issued == 0 || k < 22:
 			if r.Intn(8) == 0 {
@@ -614,6 +706,9 @@ func genScript(cfg *RunCfg, st *Stats) []string {
 			armC = !armC
 			st.Count("ev:gate-caller")
 		default:
+			if full {
+				continue
+			}
 			if armR {
 				s = append(s, "disarm:reply")
 			} else {
@@ -634,7 +729,7 @@ func Run(f *Family) {
 	cfg := ParseFlags()
 	Quiet()
 	st := NewStats("C02", cfg)
-	st.Rule = "family " + fam.Name + ": histories of 3..13 events over {issue, issue with the request cut at byte offset k, reply of class ok/remote-status/undecodable(codec set)/undecodable(codec 0)/hook-refused/decode-panic, duplicate reply, unknown seq, malformed bytes, connection lost, reply stream cut at byte offset k, local Close, gates parking callers inside AsyncCall before the write (call.stored) and after it (write.done) / reply handlers before done}; every history ends with the connection lost; thorough tier adds every cut offset of one request and one reply frame; distinct by script; non-trivial = at least one call and one reply or loss event"
+	st.Rule = "family " + fam.Name + ": histories of 3..13 events over {issue, issue with the request cut at byte offset k, reply of class ok/remote-status/undecodable(codec set)/undecodable(codec 0)/hook-refused/decode-panic, duplicate reply, unknown seq, malformed bytes, connection lost, reply stream cut at byte offset k, local Close, a frame of an unsupported message type, the goroutine pool used up / free again, gates parking callers inside AsyncCall before the write (call.stored) and after it (write.done) / reply handlers before done}; every history ends with the connection lost; thorough tier adds every cut offset of one request and one reply frame; distinct by script; non-trivial = at least one call and one reply or loss event"
 	cw := NewCaseWriter(cfg)
 	distinct := DistinctSet{}
 	var scripts [][]string
@@ -651,6 +746,20 @@ func Run(f *Family) {
 		{"arm:callerw", "issue", "lost", "disarm:callerw"},
 		{"issue", "arm:callerw", "issue", "lost", "disarm:callerw"},
 		{"arm:callerw", "issue", "close", "lost", "disarm:callerw"},
+	}
+	// no free slot in the goroutine pool: the read loop handles the frames itself
+	fixed = append(fixed,
+		[]string{"issue", "pool:full", "reply:0:@ok", "pool:free", "issue", "lost"},
+		[]string{"pool:full", "issue", "issue", "reply:1:@remote", "reply:0:@ok", "wrongseq", "pool:free", "issue", "close", "lost"},
+		[]string{"issue", "pool:full", "reply:0:@undec", "pool:free", "issue", "reply:1:@ok"})
+	if fam.Other != nil {
+		// unsupported message type with a call pending: then loss / Close / silence
+		fixed = append(fixed,
+			[]string{"issue", "other", "lost"},
+			[]string{"issue", "other", "close", "lost"},
+			[]string{"other", "issue"},
+			[]string{"issue", "other", "reply:0:@ok"},
+			[]string{"issue", "pool:full", "other", "pool:free", "lost"})
 	}
 	// every class of the family once on an open connection, followed by a well-formed exchange
 	for _, c := range fam.Classes {
@@ -685,6 +794,9 @@ func Run(f *Family) {
 		scripts = append(scripts, genScript(cfg, st))
 	}
 	scripts = scripts[:cfg.N]
+	if one := os.Getenv("C02_SCRIPT"); one != "" {
+		scripts = [][]string{strings.Fields(one)}
+	}
 	for i, sc := range scripts {
 		in, out := runCase(cfg, st, i, sc)
 		cw.Add(in, out)
